@@ -126,21 +126,43 @@ def desc_of_raw(raw, platforms):
 # real code drivers
 # ----------------------------------------------------------------------------------------
 
-def build(doc, user, tmpdir):
+def user_files(user):
+    """the variable files of a case, first to last: None | one file (a dict) | a list of files"""
+    if user is None:
+        return []
+    if isinstance(user, dict):
+        return [user]
+    return list(user)
+
+
+def write_user_files(user, tmpdir):
+    import yaml
+    paths = []
+    for k, content in enumerate(user_files(user)):
+        path = os.path.join(tmpdir, "user%d.yaml" % k)
+        with open(path, "w") as fh:
+            yaml.safe_dump(content, fh)
+        paths.append(path)
+    return paths
+
+
+def build(doc, user, tmpdir, paths=None):
+    """FlowIRConcrete of the document with the user's variable file(s) patched in by the real
+    _patch_in_variable_files (several files: layered first to last by layer_many_variable_files);
+    paths: the files are already there"""
     F = _F()
     conc = F.FlowIRConcrete(copy.deepcopy(doc), "default", {})
     desc = desc_of(conc)
     nstages = conc.get_stage_number()
-    if user is not None:
-        import yaml
+    if paths is None:
+        paths = write_user_files(user, tmpdir)
+    if paths:
         import experiment.model.conf as C
-        path = os.path.join(tmpdir, "user.yaml")
-        with open(path, "w") as fh:
-            yaml.safe_dump(user, fh)
         errs = []
-        C.FlowIRExperimentConfiguration._patch_in_variable_files([path], conc, errs)
+        C.FlowIRExperimentConfiguration._patch_in_variable_files(paths, conc, errs)
         if errs:
             raise errs[0]
+    conc.c04_source = (doc, paths)          # for the views that load document + files themselves
     return conc, desc, nstages
 
 
@@ -181,8 +203,23 @@ def impl_resolve(conc, comp, platform, prim, flags=None, keep=None):
 def user_json(user):
     if user is None:
         return None
-    return {"global": to_json(user.get("global", {})),
-            "stages": {str(i): to_json(v) for i, v in user.get("stages", {}).items()}}
+    return {"global": to_json(user.get("global") or {}),
+            "stages": {str(i): to_json(v or {}) for i, v in (user.get("stages") or {}).items()}}
+
+
+def user_req(user):
+    """the fields of a model request that describe the user's variable file(s)"""
+    if isinstance(user, list):
+        return {"users": [user_json(f) for f in user]}
+    return {"user": user_json(user)}
+
+
+def user_layers(user, stage):
+    """the user-supplied layer for a component of `stage`, lowest priority first: every file's global section
+    (first file to last), then every file's section for the stage (first to last)"""
+    files = user_files(user)
+    return ([f.get("global") or {} for f in files] +
+            [(f.get("stages") or {}).get(stage) or {} for f in files])
 
 
 # ----------------------------------------------------------------------------------------
@@ -339,6 +376,8 @@ def first_difference(a, b, path=()):
 # ----------------------------------------------------------------------------------------
 
 VIEWS = ("instance", "stored", "replicate", "conf")
+# other entry points for document + variable FILES (the files are read by the object itself)
+FILE_VIEWS = ("conf-files", "reparam")
 # views whose document is compared with Tree.flatten: view -> (is_primitive, inject_missing_fields)
 FLAT_MODES = {"instance": (False, True), "stored": (True, False)}
 
@@ -367,6 +406,28 @@ def open_view(conc, platform, view):
         conf = C.FlowIRExperimentConfiguration(None, platform, [], {}, False, False, False,
                                                concrete=F.FlowIRConcrete(conc.raw(), platform, {}),
                                                updateInstanceFiles=False, validate=False)
+
+        def ask(cid):
+            try:
+                return {"ok": to_json(conf.configurationForNode("stage%d.%s" % (cid[0], cid[1]), raw=False))}
+            except BaseException as exc:
+                if isinstance(exc, (KeyboardInterrupt, SystemExit)):
+                    raise
+                return err_kind(exc)
+        return ask, conf.get_flowir_concrete(return_copy=False)
+    elif view in FILE_VIEWS:
+        # the runtime's own route: FlowIRExperimentConfiguration reads the variable files itself
+        # (conf-files), or is re-parametrised with them after it was constructed with OTHER files (reparam:
+        # parametrize() starts again from the original document; nothing of the first load may survive)
+        import experiment.model.conf as C
+        doc, paths = conc.c04_source
+        first = list(paths) if view == "conf-files" else list(reversed(paths))[:1]
+        conf = C.FlowIRExperimentConfiguration(None, platform, first, {}, False, False, False,
+                                               concrete=F.FlowIRConcrete(copy.deepcopy(doc), platform, {}),
+                                               updateInstanceFiles=False, validate=False)
+        if view == "reparam":
+            conf.parametrize(platform, list(paths), {}, False, False, False, updateInstanceFiles=False,
+                             validate=False)
 
         def ask(cid):
             try:
@@ -493,10 +554,10 @@ def variable_target(doc, user, tag, stage, comp_index):
         return doc["variables"][{"DG": "default", "PG": "p", "QG": "q"}[tag]]["global"]
     if tag in ("DS", "PS", "QS"):
         return doc["variables"][{"DS": "default", "PS": "p", "QS": "q"}[tag]]["stages"][stage]
-    if tag == "U":
-        return user["global"]
-    if tag == "US":
-        return user["stages"].setdefault(stage, {})
+    if tag in ("U", "US", "V", "VS"):
+        # U / US: global / stage section of the FIRST variable file, V / VS: of the SECOND one
+        f = user if isinstance(user, dict) else user[0 if tag[0] == "U" else 1]
+        return f["global"] if len(tag) == 1 else f["stages"].setdefault(stage, {})
     if tag == "C":
         return comp["variables"]
     if tag == "O":
@@ -508,16 +569,35 @@ def variable_target(doc, user, tag, stage, comp_index):
 
 def visible(tag, platform):
     """is the layer part of the resolution for `platform` at all?"""
-    if tag in ("DG", "DS", "C", "U", "US"):
+    if tag in ("DG", "DS", "C", "U", "US", "V", "VS"):
         return True
     if tag in ("PG", "PS", "O"):
         return platform == "p"
     return False
 
 
-def mask_case(kind, route_i, mask, nulls, foreign, platform, stage):
-    return {"kind": kind, "route": route_i, "mask": mask, "nulls": nulls, "foreign": foreign,
+def mask_case(kind, route_i, mask, nulls, foreign, platform, stage, fill=None):
+    case = {"kind": kind, "route": route_i, "mask": mask, "nulls": nulls, "foreign": foreign,
             "platform": platform, "stage": stage}
+    if fill is not None:
+        case["fill"] = fill     # variable files (0 / 1) that hold a section for the stage with ANOTHER name in it
+    return case
+
+
+def new_user_files():
+    return [{"global": {}, "stages": {}}, {"global": {}, "stages": {}}]
+
+
+def trim_user_files(files):
+    """None when no file says anything, otherwise the files up to the last one that does (an empty file in
+    front of it is a legitimate variable file)"""
+    files = list(files)
+    while files and not files[-1]["global"] and not files[-1]["stages"]:
+        files.pop()
+    return files or None
+
+
+VAR_ORDER = ["DG", "DS", "PG", "PS", "U", "V", "US", "VS", "C", "O"]      # lowest priority first
 
 
 def materialise_mask(case):
@@ -540,10 +620,9 @@ def materialise_mask(case):
                 expected = ("value", value)
         return doc, user, {"route": list(route), "expected": expected}
     else:
-        user = {"global": {}, "stages": {}}
+        user = new_user_files()
         expected = ("undefined",)
-        order = ["DG", "DS", "PG", "PS", "U", "US", "C", "O"]
-        for k, tag in enumerate(order + FOREIGN):
+        for k, tag in enumerate(VAR_ORDER + FOREIGN):
             present = tag in case["mask"] or tag in case["foreign"]
             if not present:
                 continue
@@ -551,10 +630,12 @@ def materialise_mask(case):
             variable_target(doc, user, tag, stage, ci)["v"] = value
             if visible(tag, platform):
                 expected = ("value", value)
+        for k in case.get("fill") or []:
+            # the file has a section for this stage (and one for the other stage) that does not mention `v`
+            user[k]["stages"].setdefault(stage, {})["other%d" % k] = "o%d" % k
+            user[k]["stages"].setdefault(1 - stage, {})["v"] = "wrong-stage-%d" % k
         doc["components"][ci]["command"]["arguments"] = "<%(v)s>"
-        if not user["global"] and not user["stages"]:
-            user = None
-        return doc, user, {"expected": expected}
+        return doc, trim_user_files(user), {"expected": expected}
 
 
 def gen_chain(rng):
@@ -563,9 +644,9 @@ def gen_chain(rng):
     platform = rng.choice(["default", "p"])
     stage = rng.choice([0, 1])
     doc = base_doc()
-    user = {"global": {}, "stages": {}}
+    user = new_user_files()
     names = ["a%d" % i for i in range(depth + 1)]
-    tags = ["DG", "DS", "U", "US", "C"] + (["PG", "PS", "O"] if platform == "p" else [])
+    tags = ["DG", "DS", "U", "US", "V", "VS", "C"] + (["PG", "PS", "O"] if platform == "p" else [])
     defs = {}
     lit = rng.choice(["lit", "x y", "42", "", "100%", "a(b)c", "%d", "s)"])
     scalar = rng.choice([None, None, 7, True, 2.5])
@@ -632,10 +713,116 @@ def gen_chain(rng):
     else:
         comp["references"] = []
         comp.setdefault("workflowAttributes", {})["shutdownOn"] = ["KnownIssue", top]
-    if not user["global"] and not user["stages"]:
-        user = None
+    user = trim_user_files(user)
     return {"kind": "chain", "doc": doc, "user": user, "platform": platform, "stage": stage, "prim": prim,
             "fault": fault, "where": where, "top": top}
+
+
+SIB_NAMES = ["alpha", "beta", "gamma", "delta", "c0", "c1", "s0", "zeta9", "a", "b"]
+SIB_STAGES = [0, 1, 0, 1, 2, 10, 11]
+
+
+def gen_siblings(rng):
+    """2-4 components in ONE stage plus one in another stage.  2-4 shared names are defined by random outer
+    layers (global / stage sections of default and p, one or two variable files) - at most one of them by no
+    outer layer at all; decoys sit in the sections of ANOTHER stage and of platform q.  Every component
+    privately (own variables or its override for p) re-defines some of the shared names and reaches the others
+    through variables of its OWN (`use_n1: <%(n1)s>`) and directly from its arguments.  The private definitions
+    are arranged so that for every pair of siblings each one re-defines a name the other one reaches: in whichever
+    order an implementation visits the components of the stage, a private variable that leaks from one sibling
+    to the next changes an answer.  Returns one case per component (same document)."""
+    doc = base_doc()
+    platform = rng.choice(["default", "p"])
+    stage = rng.choice(SIB_STAGES)
+    other = rng.choice([st for st in (0, 1, 2, 10) if st != stage])
+    for sect in ("blueprint", "variables"):
+        for P in doc[sect].values():
+            P["stages"] = {stage: {}, other: {}}
+    cnames = rng.sample(SIB_NAMES, rng.randint(2, 4))
+    doc["components"] = [{"name": n, "stage": stage, "command": {}, "variables": {}, "override": {}} for n in cnames]
+    doc["components"].append({"name": rng.choice(SIB_NAMES), "stage": other, "command": {}, "variables": {},
+                              "override": {}})
+    shared = ["n%d" % k for k in range(max(2, rng.randint(2, 4), len(cnames)))]
+    user = new_user_files()
+    outer_tags = ["DG", "DS", "U", "US", "V", "VS"] + (["PG", "PS"] if platform == "p" else [])
+    undefined = rng.choice(shared) if rng.random() < 0.3 else None
+    for n in shared:
+        if n != undefined:
+            for tag in rng.sample(outer_tags, rng.randint(1, 2)):
+                variable_target(doc, user, tag, stage, 0)[n] = rng.choice(["%s@%s" % (n, tag), 7, True])
+        # decoys: the same name in the sections of another stage and of another platform
+        for tag in rng.sample(["DS", "US", "VS", "PS", "QG", "QS"], rng.randint(0, 2)):
+            st = stage if tag in ("QG", "QS") else other
+            variable_target(doc, user, tag, st, 0)[n] = "decoy-%s-%s" % (n, tag)
+    for f in user:
+        if rng.random() < 0.5:
+            f["stages"].setdefault(stage, {})["unrelated"] = "u"       # a section for the stage in this file too
+    for k, comp in enumerate(doc["components"]):
+        own, ovr = comp["variables"], {}
+        shadows = {shared[k % len(shared)]} | {n for n in shared if rng.random() < 0.25}
+        if len(shadows) == len(shared):
+            shadows.discard(shared[(k + 1) % len(shared)])
+        for n in sorted(shadows):
+            (ovr if platform == "p" and rng.random() < 0.3 else own)[n] = "%s-private-of-%s" % (n, comp["name"])
+        reached = [n for n in shared if n not in shadows]
+        if comp["stage"] != stage:
+            # the outer definitions were made for `stage`: here several names may be undefined - reach only one
+            # (at most one kind of error per case)
+            reached = [rng.choice(reached)]
+        top = []
+        for n in reached:
+            r = rng.random()
+            if r < 0.75:
+                shape = rng.choice(["%%(%s)s", "<%%(%s)s>", "%%(%s)s/%%(%s)s"])
+                (ovr if platform == "p" and rng.random() < 0.2 else own)["use_" + n] = shape % ((n,) * shape.count("%s"))
+                top.append("%%(use_%s)s" % n)
+            if r > 0.6:
+                top.append("%%(%s)s" % n)
+        if rng.random() < 0.5:
+            top.append("%%(%s)s" % rng.choice(sorted(shadows)))
+        comp["command"]["arguments"] = " ".join(top) or "nothing"
+        if ovr:
+            comp["override"]["p"] = {"variables": ovr}
+    user = trim_user_files(user)
+    asked = list(doc["components"])
+    # stage indices are contiguous: a plain component in every stage that has none
+    for st in range(max(stage, other)):
+        if st not in (stage, other):
+            doc["components"].append({"name": "pad", "stage": st, "command": {"arguments": "pad"}, "variables": {},
+                                      "override": {}})
+    return [{"kind": "siblings", "doc": doc, "user": user, "platform": platform, "stage": c["stage"], "name": c["name"],
+             "prim": False, "undefined": undefined} for c in asked]
+
+
+def layered_variables(doc, user, platform, comp):
+    """the variables of a component by the documented order (independent of the code and of the model): default
+    global < default stage < platform global < platform stage < the user's files (first to last; global sections,
+    then the sections of the stage) < the component's own < its override for the platform"""
+    stage = comp["stage"]
+    order = [doc["variables"]["default"]["global"], doc["variables"]["default"]["stages"].get(stage, {})]
+    if platform != "default":
+        order += [doc["variables"][platform]["global"], doc["variables"][platform]["stages"].get(stage, {})]
+    order += user_layers(user, stage)
+    order += [comp.get("variables", {})]
+    order += [((comp.get("override") or {}).get(platform) or {}).get("variables", {})]
+    variables = {}
+    for layer in order:
+        variables.update(layer)
+    return variables
+
+
+def expected_sibling(case):
+    """(expected arguments, expected variables) of the component the case asks about, or None when a reference
+    of the component cannot be resolved from ITS layers (then the resolution must fail)"""
+    comp = next(c for c in case["doc"]["components"] if (c["stage"], c["name"]) == (case["stage"], case["name"]))
+    variables = layered_variables(case["doc"], case["user"], case["platform"], comp)
+    exp = {}
+    for k, v in variables.items():
+        exp[k] = spec_substitute(v, variables) if isinstance(v, str) else v
+        if exp[k] is None:
+            return None
+    args = spec_substitute(comp["command"]["arguments"], variables)
+    return None if args is None else (args, exp)
 
 
 def all_var_dicts(doc, user):
@@ -648,9 +835,9 @@ def all_var_dicts(doc, user):
         for o in c.get("override", {}).values():
             if "variables" in o:
                 out.append(o["variables"])
-    if user:
-        out.append(user["global"])
-        out.extend(user["stages"].values())
+    for f in user_files(user):
+        out.append(f["global"])
+        out.extend(f["stages"].values())
     return out
 
 
@@ -923,6 +1110,24 @@ def judge_answer(ctx, case, out, table, mout=None, view=None):
         elif fault in ("incomplete", "invalid"):
             if "ok" in out:
                 fail("malformed-reference-accepted", out)
+    elif kind == "siblings":
+        exp = expected_sibling(case)
+        if exp is None:
+            if out.get("error") != "unknown-variable":
+                fail("undefined-variable-not-reported", out if "ok" not in out else
+                     {"arguments": out["ok"]["command"].get("arguments"), "variables": out["ok"].get("variables")})
+        elif "ok" not in out:
+            fail("resolution-of-well-formed-layers-fails", out)
+        else:
+            args, variables = exp
+            got = out["ok"].get("variables") or {}
+            for k in sorted(variables):
+                if got.get(k, "<absent>") != to_json(variables[k]):
+                    fail("variable-not-from-highest-priority-layer",
+                         {"variable": k, "expected": variables[k], "got": got.get(k, "<absent>")})
+            if out["ok"]["command"].get("arguments") != args:
+                fail("substitution-result-differs-from-specification",
+                     {"expected": args, "got": out["ok"]["command"].get("arguments")})
     elif kind == "shadowed":
         got = out["ok"]["command"]["arguments"] if "ok" in out else out
         if got == "innerV-g":
@@ -959,9 +1164,9 @@ def run_cases(ctx, cases, tmpdir, table):
             continue
         out = impl_resolve(conc, comp, case["platform"], case.get("prim", False), case.get("flags"))
         plan = {"out": out, "views": [], "main": len(reqs), "strict": None, "flatten": {}}
-        req = {"op": "resolve", "desc": desc, "user": user_json(user), "nstages": nstages,
-               "platform": case["platform"], "stage": comp[0], "name": comp[1],
-               "prim": bool(case.get("prim", False)), "fuel": FUEL}
+        req = dict(user_req(user), op="resolve", desc=desc, nstages=nstages,
+                   platform=case["platform"], stage=comp[0], name=comp[1],
+                   prim=bool(case.get("prim", False)), fuel=FUEL)
         if case.get("flags") is not None:
             req["flags"] = case["flags"]
         reqs.append(req)
@@ -975,12 +1180,13 @@ def run_cases(ctx, cases, tmpdir, table):
             if case.get("prim"):
                 plan["strict"] = len(reqs)
                 reqs.append(dict(req, prim=False))
+            remember(case, out, plan["views"])
             for v in plan["views"]:
                 if v[0] in FLAT_MODES:
                     plan["flatten"][v[0]] = len(reqs)
-                    reqs.append({"op": "flatten", "desc": desc, "user": user_json(user), "nstages": nstages,
-                                 "platform": case["platform"], "prim": FLAT_MODES[v[0]][0],
-                                 "inject": FLAT_MODES[v[0]][1], "fuel": FUEL})
+                    reqs.append(dict(user_req(user), op="flatten", desc=desc, nstages=nstages,
+                                     platform=case["platform"], prim=FLAT_MODES[v[0]][0],
+                                     inject=FLAT_MODES[v[0]][1], fuel=FUEL))
         plans.append(plan)
     mouts = ctx.model(reqs) if reqs else []
     for case, plan in zip(cases, plans):
@@ -1086,8 +1292,7 @@ def expected_chain_string(case):
     order = [doc["variables"]["default"]["global"], doc["variables"]["default"]["stages"].get(stage, {})]
     if platform != "default":
         order += [doc["variables"][platform]["global"], doc["variables"][platform]["stages"].get(stage, {})]
-    if user:
-        order += [user.get("global", {}), user.get("stages", {}).get(stage, {})]
+    order += user_layers(user, stage)
     order += [comp.get("variables", {})]
     order += [comp.get("override", {}).get(platform, {}).get("variables", {})]
     variables = {}
@@ -1153,6 +1358,25 @@ def gen_sequence(rng):
         for tag in ("C", "O", "QO"):
             if rng.random() < 0.3:
                 variable_target(doc, None, tag, comp["stage"], ci)["v"] = "v%s-%s" % (tag, comp["name"])
+        if rng.random() < 0.5:
+            # a variable of its own that reaches `v` (which some of its siblings re-define privately)
+            comp["variables"]["w"] = "w<%(v)s>"
+            comp["command"]["arguments"] = "<%(v)s> %(w)s"
+    # the user's variable files (one or two; sections for both stages, some without `v`)
+    user = None
+    if rng.random() < 0.4:
+        files = new_user_files()
+        for tag in ("U", "V"):
+            if rng.random() < 0.35:
+                variable_target(doc, files, tag, 0, 0)["v"] = "v" + tag
+        for tag in ("US", "VS"):
+            for stage in (0, 1):
+                r = rng.random()
+                if r < 0.35:
+                    variable_target(doc, files, tag, stage, 0)["v"] = "v%s%d" % (tag, stage)
+                elif r < 0.6:
+                    variable_target(doc, files, tag, stage, 0)["unrelated"] = "u"
+        user = trim_user_files(files)
     # components whose PRIMITIVE and strict resolutions differ: they are not replicated but mention %(replica)s
     # (primitive: tolerated - the reference stays, a failed type conversion is discarded; strict: an error)
     tolerant = {}
@@ -1196,7 +1420,9 @@ def gen_sequence(rng):
     r = rng.random()
     views = (["instance"] + (["replicate"] if r < 0.2 else []) + (["conf"] if 0.1 < r < 0.35 else []) +
              (["stored"] if r > 0.8 else []))
-    return {"kind": "sequence", "doc": doc, "user": None, "routes": routes, "ops": ops, "tolerant": tolerant,
+    if user is not None:
+        views += (["conf-files"] if 0.3 < r < 0.6 else []) + (["reparam"] if 0.5 < r < 0.75 else [])
+    return {"kind": "sequence", "doc": doc, "user": user, "routes": routes, "ops": ops, "tolerant": tolerant,
             "views": views}
 
 
@@ -1236,13 +1462,14 @@ def expected_layered(doc, comp, platform, route):
     return exp
 
 
-def expected_variable(doc, comp, platform, name, own_only=False):
+def expected_variable(doc, comp, platform, name, own_only=False, user=None):
     stage = comp["stage"]
     order = []
     if not own_only:
         order = [doc["variables"]["default"]["global"], doc["variables"]["default"]["stages"].get(stage, {})]
         if platform != "default":
             order += [doc["variables"][platform]["global"], doc["variables"][platform]["stages"].get(stage, {})]
+        order += user_layers(user, stage)
     order += [comp.get("variables", {}), ((comp.get("override") or {}).get(platform) or {}).get("variables", {})]
     variables = {}
     for layer in order:
@@ -1260,7 +1487,8 @@ def spec_check_resolution(case, comp, platform, out, builtin, flags=None):
     who = {"component": [comp["stage"], comp["name"]], "platform": platform}
     if flags != STD_FLAGS:
         who["flags"] = flags
-    v = expected_variable(doc, comp, platform, "v", own_only=not flags["incl"])
+    v = expected_variable(doc, comp, platform, "v", own_only=not flags["incl"], user=case.get("user"))
+    w = expected_variable(doc, comp, platform, "w", own_only=True)      # only ever the component's own
     tol = (case.get("tolerant") or {}).get("%d/%s" % (comp["stage"], comp["name"]))
     if tol and not flags["raw"] and not flags["prim"]:
         # `replica` is defined by no layer: the strict resolution must report it, whatever was asked before
@@ -1300,7 +1528,13 @@ def spec_check_resolution(case, comp, platform, out, builtin, flags=None):
         yield "variable-not-from-highest-priority-layer", dict(who, expected=v, got=out["ok"].get("variables", {}).get("v"))
     want = comp["command"]["arguments"]
     if not flags["raw"]:
+        if w is not None:
+            w = w.replace("%(v)s", str(v))
+            want = want.replace("%(w)s", w)
         want = want.replace("%(v)s", str(v))        # a tolerated %(replica)s of a primitive look-up stays
+    if out["ok"].get("variables", {}).get("w") != w:
+        yield "variable-not-from-highest-priority-layer", dict(who, variable="w", expected=w,
+                                                               got=out["ok"].get("variables", {}).get("w"))
     if out["ok"].get("command", {}).get("arguments") != want:
         yield "substituted-value-not-from-highest-priority-layer", dict(
             who, expected=want, got=out["ok"].get("command", {}).get("arguments"))
@@ -1313,6 +1547,7 @@ def run_sequence(case, tmpdir):
     F = _F()
     doc = case["doc"]
     conc, desc, nstages = build(doc, case.get("user"), tmpdir)
+    paths = conc.c04_source[1]
     builtin = to_json(F.FlowIR.inject_default_values_to_component({}))
     before = desc_norm(conc)
     by_id = {(c["stage"], c["name"]): c for c in doc["components"]}
@@ -1329,7 +1564,7 @@ def run_sequence(case, tmpdir):
                     for slug, detail in spec_check_resolution(case, by_id[cid], P, out, builtin):
                         failures.append((slug, dict(detail, after_operations=list(done))))
                     # the same question to a fresh object that was never asked anything else
-                    fresh = F.FlowIRConcrete(copy.deepcopy(doc), "default", {})
+                    fresh = build(doc, case.get("user"), tmpdir, paths=paths)[0]
                     ref = impl_resolve(fresh, cid, P, False, STD_FLAGS)
                     if not canon_eq(coarse_error(ref), coarse_error(out)):
                         failures.append(("resolution-depends-on-earlier-read-only-operations",
@@ -1407,7 +1642,7 @@ def run_sequences(ctx, cases, tmpdir, table):
     for case in cases:
         desc, nstages, queries, failures, vqueries, flats = run_sequence(case, tmpdir)
         runs.append((queries, failures, vqueries, flats, len(reqs)))
-        common = {"desc": desc, "user": user_json(case.get("user")), "nstages": nstages, "fuel": FUEL}
+        common = dict(user_req(case.get("user")), desc=desc, nstages=nstages, fuel=FUEL)
         for q, _ in queries + vqueries:
             reqs.append(dict(common, op="resolve", platform=q["platform"], stage=q["stage"], name=q["name"],
                              prim=q["flags"]["prim"], flags=q["flags"]))
@@ -1489,6 +1724,119 @@ def canon_eq(a, b):
     return json.dumps(a, sort_keys=True) == json.dumps(b, sort_keys=True)
 
 
+# the same cases again: later in the process, in another order, in other processes -------------------------
+
+SEEN = []           # (case, {"direct": answer, view: answer | {"unavailable": error}}) of the first time round
+SEEN_STRIDE = [0]
+
+
+def remember(case, out, views):
+    """keep the implementation's answers of every 5th plain case (every sibling case) for the later streams"""
+    SEEN_STRIDE[0] += 1
+    if case["kind"] != "siblings" and SEEN_STRIDE[0] % 5:
+        return
+    res = {"direct": out}
+    for view, ans, _, err in views:
+        res[view] = {"unavailable": err} if ans is None else ans
+    SEEN.append((case, res))
+
+
+def impl_answers(case, tmpdir, views):
+    """implementation only: the answer of the un-flattened object and of the views of the case"""
+    comp = (case["stage"], case.get("name", "c%d" % case["stage"]))
+    conc, _, _ = build(case["doc"], case["user"], tmpdir)
+    res = {"direct": impl_resolve(conc, comp, case["platform"], case.get("prim", False), case.get("flags"))}
+    for view in views:
+        ask, _, err = try_view(conc, case["platform"], view)
+        res[view] = {"unavailable": err} if ask is None else ask(comp)
+    return res
+
+
+def coarse_answers(res):
+    return {k: coarse_error(v) for k, v in res.items()}
+
+
+def child_main(path):
+    """entry of the child processes of later_streams: answers of the cases in the file, as JSON on stdout"""
+    _quiet()
+    doc = json.load(open(path))
+    tmpdir = tempfile.mkdtemp(prefix="c04-child-")
+    out = []
+    try:
+        for case in doc["cases"]:
+            case = fix_int_keys(case)
+            try:
+                out.append(coarse_answers(impl_answers(case, tmpdir, case["child_views"])))
+            except BaseException as exc:
+                out.append({"crash": type(exc).__name__})
+    finally:
+        shutil.rmtree(tmpdir, ignore_errors=True)
+    sys.stdout.write("\nC04-CHILD-ANSWERS " + json.dumps(out) + "\n")
+
+
+def later_streams(ctx, tmpdir, n_again, n_child, hash_seeds):
+    """(1) a sample of the cases once more, at the end of the run, in another order, after all the unrelated cases
+    (same component names in other roles): the implementation must answer what it answered the first time -
+    nothing a load leaves behind in the process (module / class level state) may reach a later one;
+    (2) a sample (every sibling case first) in child processes started with other PYTHONHASHSEEDs: the order in
+    which sets of component identifiers are iterated must not change an answer"""
+    import subprocess
+    rng = ctx.rng
+    sample = list(SEEN)
+    del SEEN[:]
+    rng.shuffle(sample)
+    sibs = [e for e in sample if e[0]["kind"] == "siblings"]
+    rest = [e for e in sample if e[0]["kind"] != "siblings"]
+    again = sibs[:n_again // 2] + rest[:n_again - min(len(sibs), n_again // 2)]
+    rng.shuffle(again)
+    second = []
+    for case, first in again:
+        views = [k for k in first if k != "direct"]
+        res = impl_answers(case, tmpdir, views)
+        second.append((case, views, res))
+        ctx.tag("again:" + case["kind"])
+        if not canon_eq(coarse_answers(first), coarse_answers(res)):
+            which = next(k for k in first if not canon_eq(coarse_error(first[k]), coarse_error(res[k])))
+            ctx.fail("result-depends-on-earlier-cases", case,
+                     {"asked": which, "first_time": first[which], "at_the_end_of_the_run": res[which],
+                      "difference": first_difference(first[which], res[which])})
+    if not hash_seeds or not second:
+        return
+    chosen = second[:n_child]
+    payload = {"cases": [dict(case, child_views=views) for case, views, _ in chosen]}
+    path = os.path.join(tmpdir, "child-cases.json")
+    with open(path, "w") as fh:
+        json.dump(payload, fh)
+    here = os.path.dirname(os.path.dirname(os.path.abspath(__file__)))
+    procs = []
+    for hs in hash_seeds:
+        env = dict(os.environ, PYTHONHASHSEED=str(hs), PYTHONDONTWRITEBYTECODE="1")
+        procs.append((hs, subprocess.Popen([sys.executable, "-W", "ignore", "-m", "harness.c04", path], cwd=here, env=env,
+                                           stdout=subprocess.PIPE, stderr=subprocess.DEVNULL, text=True)))
+    for hs, proc in procs:
+        try:
+            stdout, _ = proc.communicate(timeout=600)
+        except subprocess.TimeoutExpired:
+            proc.kill()
+            ctx.tag("hash-seed-child:timeout")
+            continue
+        line = next((l for l in stdout.splitlines() if l.startswith("C04-CHILD-ANSWERS ")), None)
+        if line is None:
+            ctx.tag("hash-seed-child:no-answer")
+            continue
+        answers = json.loads(line[len("C04-CHILD-ANSWERS "):])
+        ctx.tag("hash-seed-child:ok")
+        for (case, views, res), theirs in zip(chosen, answers):
+            mine = coarse_answers(res)
+            if canon_eq(mine, theirs):
+                continue
+            which = next((k for k in mine if not canon_eq(mine[k], theirs.get(k))), "direct")
+            ctx.fail("result-depends-on-hash-seed", case,
+                     {"asked": which, "this_process": mine.get(which), "PYTHONHASHSEED": hs,
+                      "other_process": theirs.get(which) if isinstance(theirs, dict) else theirs,
+                      "difference": first_difference(mine.get(which), theirs.get(which)) if isinstance(theirs, dict) else None})
+
+
 # unit-level relations -------------------------------------------------------------------
 
 def gen_tree(rng, depth=0):
@@ -1557,6 +1905,62 @@ def unit_interp(ctx, rng, n):
                 ctx.tag("model:unsupported")
                 continue
             ctx.compare("FlowIR.interpolate == Tree.interp", case, mo, out)
+
+def gen_variable_file(rng, names):
+    """one variable file: optional global section, sections for some of the stages 0, 1, 2, 10, 11; scalars of
+    every admitted kind; sections may be missing or empty"""
+    f = {}
+    val = lambda: rng.choice(["s", "", "x y", "%(a)s", 0, 1, -3, 10, 11, True, False, 2.5, "1", "1.0", "True"])
+    if rng.random() < 0.8:
+        f["global"] = {n: val() for n in names if rng.random() < 0.4}
+    if rng.random() < 0.85:
+        f["stages"] = {}
+        for st in (0, 1, 2, 10, 11):
+            if rng.random() < 0.45:
+                f["stages"][st] = {n: val() for n in names if rng.random() < 0.4}
+    return f
+
+
+def unit_layer_files(ctx, rng, n, tmpdir, given=None):
+    """FlowIRExperimentConfiguration.layer_many_variable_files on 1-4 files == Tree.layerUserFiles, and the
+    documented meaning (model independent): in every scope a name has the value of the LAST file that defines it
+    there; nothing else appears"""
+    import experiment.model.conf as C
+    names = ["a", "b", "keep", "shadow", "n10"]
+    cases, reqs = [], []
+    for k in range(n):
+        files = given[k] if given is not None else [gen_variable_file(rng, names) for _ in range(rng.randint(1, 4))]
+        cases.append(files)
+        reqs.append({"op": "layerUsers", "users": [user_json(f) for f in files]})
+    mouts = ctx.model(reqs)
+    for files, mo in zip(cases, mouts or [None] * len(cases)):
+        case = {"kind": "variable-files", "user": files}
+        paths = write_user_files(files, tmpdir)
+        try:
+            got = C.FlowIRExperimentConfiguration.layer_many_variable_files(paths)
+            out = {"ok": prune_empty(user_json(got))}
+        except BaseException as exc:
+            if isinstance(exc, (KeyboardInterrupt, SystemExit)):
+                raise
+            out = {"error": type(exc).__name__}
+        sections = sum(1 for f in files for st in (f.get("stages") or {}))
+        ctx.case(case, nontrivial=len(files) >= 2 and sections >= 2,
+                 tags=["kind:variable-files", "files:%d" % len(files), "layer-files:" + ("ok" if "ok" in out else out["error"])])
+        if "ok" not in out:
+            ctx.fail("well-formed-variable-files-are-rejected", case, out)
+            continue
+        exp = {"global": {}, "stages": {}}
+        for f in files:
+            exp["global"].update(to_json(f.get("global") or {}))
+            for st, vs in (f.get("stages") or {}).items():
+                exp["stages"].setdefault(str(st), {}).update(to_json(vs or {}))
+        exp = prune_empty(exp)
+        if not canon_eq(exp, out["ok"]):
+            ctx.fail("variable-of-an-earlier-file-lost-or-not-shadowed", case,
+                     {"difference": first_difference(exp, out["ok"]), "layered": out["ok"]})
+        if mo is not None:
+            ctx.compare("layer_many_variable_files == Tree.layerUserFiles", case,
+                        {"ok": prune_empty(mo["ok"])} if "ok" in mo else mo, out)
 
 
 CORPUS = []
@@ -1652,7 +2056,23 @@ def run(ctx):
                 "FlowIRConcrete(replicate(P)) [20%], FlowIRExperimentConfiguration(primitive=False) [18-25%] with the "
                 "same oracles; instance(P) itself is compared with Tree.flatten. (e') 20/200 cases in which a "
                 "global/stage variable refers to a name an inner scope re-defines (early binding of the fold: "
-                "tagged, Witness/C04.lean).")
+                "tagged, Witness/C04.lean). (k) user variables come from ONE OR TWO variable files (layers U/US = "
+                "global/stage section of the first file, V/VS = of the second; masks over 10 variable layers, chains "
+                "and sequences draw them too); files hold sections for the stage that do not mention the variable and "
+                "sections of the other stage that do (decoys); cases with user variables are also loaded through "
+                "FlowIRExperimentConfiguration(variable_files=[...]) [30%] and through parametrize(variable_files) "
+                "after a first load with other files [25%]; unit stream: layer_many_variable_files on 1-4 files with "
+                "missing / empty sections and stages 0,1,2,10,11 == Tree.layerUserFiles and == 'last file that defines "
+                "the name in the scope'. (l) siblings: 2-4 components of ONE stage (stage in 0,1,2,10,11; + one "
+                "component of another stage) over 2-4 shared names defined by random outer layers (<= 1 by none), "
+                "decoys in sections of another stage / platform; every component re-defines some names privately "
+                "(own variables / override) and reaches the others through variables of its OWN and from its "
+                "arguments, arranged so that every pair of siblings shadows a name the other reaches (visit-order "
+                "independent); one case per component; expectation = layering + substitution of the ORIGINAL document. "
+                "Sequences: half of the components own a variable that reaches `v` (which siblings re-define). (m) "
+                "a sample of the cases (every sibling case, every 5th other) is run AGAIN at the end of the run in "
+                "another order (answers must be the first ones) and in 2 (thorough: 4) child processes with other "
+                "PYTHONHASHSEEDs (answers must be this process's).")
     ctx.assumptions = [
         "generated strings contain no '[' (array access is not modelled) and no dotted variable names",
         "int()/float() literals are drawn from the documented subset (sign+digits; <=10 integer and <=4 fractional digits)",
@@ -1668,6 +2088,9 @@ def run(ctx):
                        "FlowIRExperimentConfiguration are judged through the resolutions they answer only")
     ctx.assumptions.append("flattened views are compared for components that are not replicated (no "
                            "workflowAttributes.replicate) and documents without $import components")
+    ctx.assumptions.append("variable files are YAML with scalar values (strings, numbers, booleans); across files the "
+                           "sections of a stage outrank the global sections (what the code does; the property text "
+                           "names user-supplied variables as ONE layer)")
     tmpdir = tempfile.mkdtemp(prefix="c04-")
     try:
         cases = flat_corpus()
@@ -1688,15 +2111,16 @@ def run(ctx):
             case.update(doc=doc, user=user, expect=exp, prim=False)
             cases.append(case)
         # (b) variable masks
-        vorder = ["DG", "DS", "PG", "PS", "U", "US", "C", "O"]
-        vsets = [list(c) for r in range(len(vorder) + 1) for c in itertools.combinations(vorder, r)]
+        vsets = [list(c) for r in range(len(VAR_ORDER) + 1) for c in itertools.combinations(VAR_ORDER, r)]
         if quick:
-            vpicked = [(m, pl, rng.choice([0, 1])) for m in rng.sample(vsets, 90) for pl in ("default", "p")]
+            vpicked = [(m, pl, rng.choice([0, 1])) for m in rng.sample(vsets, 120) for pl in ("default", "p")]
         else:
             vpicked = [(m, pl, st) for m in vsets for pl in ("default", "p") for st in (0, 1)]
         for m, pl, st in vpicked:
             foreign = [t for t in FOREIGN if rng.random() < 0.4]
-            case = mask_case("variable-mask", 0, m, [], foreign, pl, st)
+            # variable files that hold a section for the stage which does not mention the variable
+            fill = [k for k in (0, 1) if rng.random() < 0.5]
+            case = mask_case("variable-mask", 0, m, [], foreign, pl, st, fill=fill)
             doc, user, exp = materialise_mask(case)
             case.update(doc=doc, user=user, expect=exp, prim=False)
             cases.append(case)
@@ -1717,6 +2141,9 @@ def run(ctx):
         # (e') references of outer-scope variables to names an inner scope re-defines
         for _ in range(20 if quick else 200):
             cases.append(gen_shadowed(rng))
+        # (e'') siblings of one stage with private variables and variable-to-variable references of their own
+        for _ in range(60 if quick else 700):
+            cases.extend(gen_siblings(rng))
         # every case is also asked through the flattened forms of its description (what the runtime executes)
         for case in cases:
             r = rng.random()
@@ -1724,6 +2151,10 @@ def run(ctx):
                 continue
             case["views"] = (["instance"] + (["replicate"] if r < 0.2 else []) + (["conf"] if 0.12 < r < 0.3 else []) +
                              (["stored"] if r > 0.8 else []))
+            if case.get("user") is not None:
+                # other entry points: the configuration object reads the variable file(s) itself / is
+                # re-parametrised with them after a first load with other files
+                case["views"] += (["conf-files"] if 0.25 < r < 0.55 else []) + (["reparam"] if 0.45 < r < 0.7 else [])
             if '"replicate"' in json.dumps(case["doc"]):
                 case["views"] = ["instance"]        # a replicated component has other names: not this property
         # (g) the same cases asked with the other keyword variants of get_component_configuration
@@ -1741,6 +2172,10 @@ def run(ctx):
         # (f) unit relations
         unit_override(ctx, rng, 400 if quick else 6000)
         unit_interp(ctx, rng, 600 if quick else 10000)
+        unit_layer_files(ctx, rng, 150 if quick else 2500, tmpdir)
+        # the same cases later in this process / in processes with other hash seeds
+        later_streams(ctx, tmpdir, 160 if quick else 1500, 60 if quick else 400,
+                      [ctx.seed + 101, ctx.seed + 202] if quick else [ctx.seed + 101, ctx.seed + 202, 7, 4242])
     finally:
         shutil.rmtree(tmpdir, ignore_errors=True)
 
@@ -1818,6 +2253,12 @@ def replay(ctx, doc):
             ctx.case(case, nontrivial=True, tags=["kind:interp"])
             if mo is not None and mo[0].get("error") != "unsupported":
                 ctx.compare("FlowIR.interpolate == Tree.interp", case, mo[0], out)
+        elif kind == "variable-files":
+            files = [from_json(f) for f in case["user"]]
+            for f in files:
+                if isinstance(f.get("stages"), dict):
+                    f["stages"] = {int(k): v for k, v in f["stages"].items()}
+            unit_layer_files(ctx, None, 1, tmpdir, given=[files])
         elif kind == "sequence":
             run_sequences(ctx, [fix_int_keys(case)], tmpdir, table)
         else:
@@ -1846,6 +2287,17 @@ def fix_int_keys(case):
     for sect in ("blueprint", "variables"):
         for P in (doc.get(sect) or {}).values():
             fix_stages(P)
-    if case.get("user"):
-        fix_stages(case["user"])
+    for f in user_files(case.get("user")):
+        fix_stages(f)
     return case
+
+
+if __name__ == "__main__":
+    # child process of later_streams (another PYTHONHASHSEED): python -m harness.c04 <cases.json>
+    _repo = os.environ.get("ST4SD_REPO", "/repo")
+    sys.path.insert(0, _repo)
+    sys.path.insert(0, os.path.join(_repo, "python"))
+    import warnings
+    warnings.filterwarnings("ignore")
+    sys.modules.setdefault("harness.c04", sys.modules["__main__"])
+    child_main(sys.argv[1])
